@@ -277,12 +277,12 @@ class Parser:
                             ; if there is only a single string, the brackets
                             ; are optional
         """
-        if ttype == "string":
+        if ttype in ["string", "multiline"]:
             self.__curstringlist += [tvalue.decode("utf-8")]
             self.__set_expected("comma", "right_bracket")
             return True
         if ttype == "comma":
-            self.__set_expected("string")
+            self.__set_expected("string", "multiline")
             return True
         if ttype == "right_bracket":
             self.__pop_expected_bracket(ttype, tvalue)
@@ -316,7 +316,7 @@ class Parser:
             self.__push_expected_bracket("right_bracket", b"}")
             self.__cstate = self.__stringlist
             self.__curstringlist = []
-            self.__set_expected("string")
+            self.__set_expected("string", "multiline")
             return True
 
         return False
